@@ -603,7 +603,7 @@ pub fn gen_value(rng: &mut Rng, cfg: &GenCfg, depth: usize) -> V {
             for _ in 0..n {
                 // names code may treat specially, now and then
                 let name = if rng.chance(1, 15) {
-                    rng.pick(&["length", "0", "1", "__proto__", "constructor", "toString", "name", "type", "code", "level", "description", "objectEncoding", "app", "data", "value", "onMetaData"]).to_string()
+                    rng.pick(&["length", "0", "1", "__proto__", "constructor", "toString", "name", "type", "code", "level", "description", "objectEncoding", "app", "data", "value", "onMetaData", "2000000", "4294967295", "18446744073709551615", "-1", "1e9", "00", "videocodecid", "audiocodecid", "duration", "width", "height", "framerate", "encoder"]).to_string()
                 } else {
                     gen_string(rng, cfg, true)
                 };
@@ -872,12 +872,54 @@ pub fn seq_diff_class(got: &[V], want: &[V]) -> String {
 }
 
 /// Run the library decoder; returns canonical values and the number of bytes consumed.
+/// A `Read` that hands the bytes out in short pieces (1, 2, 7, 3, 64, ... bytes per call), as a
+/// socket or a buffered reader may: `deserialize` takes any `Read`, and what it returns must not
+/// depend on how the reader delivers the bytes.
+struct Choppy<'a> {
+    data: &'a [u8],
+    pos: usize,
+    calls: usize,
+}
+
+impl<'a> std::io::Read for Choppy<'a> {
+    fn read(&mut self, buf: &mut [u8]) -> std::io::Result<usize> {
+        const STEPS: [usize; 8] = [1, 2, 7, 3, 64, 1, 500, 5];
+        let n = STEPS[self.calls % STEPS.len()].min(buf.len()).min(self.data.len() - self.pos);
+        self.calls += 1;
+        buf[..n].copy_from_slice(&self.data[self.pos..self.pos + n]);
+        self.pos += n;
+        Ok(n)
+    }
+}
+
 pub fn lib_decode(bytes: &[u8]) -> Result<(Vec<V>, usize), String> {
     let mut cur = std::io::Cursor::new(bytes);
-    match rml_amf0::deserialize(&mut cur) {
+    let whole = match rml_amf0::deserialize(&mut cur) {
         Ok(vs) => Ok((seq_from_lib(&vs), cur.position() as usize)),
         Err(e) => Err(format!("{:?}", e)),
+    };
+    // the same bytes through a reader that delivers them in pieces (bounded: small inputs always,
+    // larger ones when their length is a multiple of 8)
+    if bytes.len() <= 4096 || (bytes.len() <= (1 << 20) && bytes.len() % 8 == 0) {
+        let mut ch = Choppy { data: bytes, pos: 0, calls: 0 };
+        let pieces = match rml_amf0::deserialize(&mut ch) {
+            Ok(vs) => Ok((seq_from_lib(&vs), ch.pos)),
+            Err(e) => Err(format!("{:?}", e)),
+        };
+        let same = match (&whole, &pieces) {
+            (Ok(a), Ok(b)) => a == b,
+            (Err(_), Err(_)) => true,
+            _ => false,
+        };
+        if !same {
+            return Err(format!(
+                "RESULT DEPENDS ON HOW THE READER DELIVERS THE BYTES: from a slice {}, from a reader returning short reads {}",
+                match &whole { Ok(x) => format!("Ok({} values, {} bytes consumed)", x.0.len(), x.1), Err(e) => format!("Err({})", e) },
+                match &pieces { Ok(x) => format!("Ok({} values, {} bytes consumed)", x.0.len(), x.1), Err(e) => format!("Err({})", e) }
+            ));
+        }
     }
+    whole
 }
 
 pub fn lib_encode(vs: &[V]) -> Result<Vec<u8>, String> {
